@@ -1,6 +1,6 @@
 SPECIFICATION Spec
 CONSTANT Jobs = {"1", "2", "3"}
-CONSTANT Xps = {"x", "y"}
+CONSTANT Xps = {"x", "xy"}
 CONSTANT Fails = {"3"}
 CONSTANT Depth = 4
 CONSTRAINT LevelBound
